@@ -149,7 +149,7 @@ func GenerateBlumPrime[E algebra.NatPlusLike[E]](set PrimeSamplable[E], bits uin
 	}
 	checks := MillerRabinChecks(bits)
 	numBytes := (bits + 7) / 8
-	topBits := max(bits%8, 8)
+	topBits := (bits-1)%8 + 1 // significant bits of the most significant byte: 1..8
 	topByteMask := byte((1 << topBits) - 1)
 	topByteMSB := byte(1) << (topBits - 1)
 	buf := make([]byte, numBytes)
